@@ -57,7 +57,7 @@ class C12(core.PropertyCheck):
     id = "C12"
     level = "proof"
     parallel = False
-    quick_budget = 240
+    quick_budget = 400
     thorough_budget = 2400
     rule = ("generated projects: index + 1-3 pages (toctree, labels, :ref:/:doc: across pages incl. dangling ones, unknown directive), "
             "shared include, literalinclude'd file, figure, extracts or steps YAML with 1-3 entries (sometimes malformed) x histories of "
@@ -169,7 +169,7 @@ class C12(core.PropertyCheck):
                     # second level of cross-file inheritance: c <- b <- a
                     docs.append(f"ref: {r}\nsource:\n  file: extracts-b.yaml\n  ref: {rng.choice(['qux', 'quux', 'corge'])}\n")
                     continue
-                if getattr(self, "_xfile", True) and rng.random() < 0.4:
+                if getattr(self, "_xfile", True) and rng.random() < (0.75 if path.endswith("-a.yaml") else 0.4):
                     # placeholders filled from the entry's own replacement table (and, in heirs, from the heir's)
                     body += " in {{datadir}} as {{user}}"
                     keys = ["user", "datadir"] if rng.random() < 0.8 else rng.sample(["user", "datadir", "port"], rng.randint(1, 3))
@@ -297,7 +297,7 @@ class C12(core.PropertyCheck):
             if dense and ops[-1]["op"] not in ("postprocess", "build") and len(ops) < n:
                 ops.append({"op": "postprocess"})
         ops = ops[:8]
-        if "includes/extracts-b.yaml" in exists and "includes/extracts-a.yaml" in exists and self._xfile and rng.random() < 0.5:
+        if "includes/extracts-b.yaml" in exists and "includes/extracts-a.yaml" in exists and self._xfile and rng.random() < 0.7:
             # the parent of inheriting entries changes after everything was built once: heirs must be regenerated from the new parent
             ops = ops[:5] + [{"op": "postprocess"}, {"op": "update", "path": "includes/extracts-a.yaml", "text": self.gen_text(rng, "includes/extracts-a.yaml", ctx), "via": "disk"},
                              {"op": "postprocess"}]
